@@ -5,10 +5,22 @@
 (* Abstract state (nothing about keys, counters or caches):                *)
 (*   fields : the set of registered (indexed) field paths                  *)
 (*   docs   : live documents, docid -> [path -> term]                      *)
+(*   openv  : the <<docid, path>> pairs whose value is OPEN (see below)    *)
 (* A term is <<"s", text>> or <<"n", k>>.  Numbers are kept as integers;   *)
 (* the binding maps them to floats by an order-preserving injection        *)
 (* (k/2 by default, so odd k are fractions) - every query below depends    *)
 (* on numbers only through = and <.                                        *)
+(*                                                                         *)
+(* Firm and open values.  The value a live document d has for a path f is  *)
+(* FIRM if f was registered when d was (last) added and has not been       *)
+(* removed since: the index must report it.  It is OPEN if f was removed   *)
+(* (and possibly registered again) after d was added: whether the index    *)
+(* reports a value that was there before a (re-)registration is not stated *)
+(* by the property (the code says "TODO reindex existing data"), so every  *)
+(* query may count any subset of the open values - and nothing else: the   *)
+(* accepted answers of a query are the brute-force scans over the firm     *)
+(* carriers plus ANY subset of the open carriers.  In a state without open *)
+(* values there is exactly one accepted answer.                            *)
 (*                                                                         *)
 (* The module is used in two ways (selected by the cfg):                   *)
 (*   generation : Init/Next with the history variable `hist`; TLC          *)
@@ -18,8 +30,8 @@
 (*   oracle     : OInit/ONext ranges over the tuple `StateSeq` (module     *)
 (*                KVIndexStates, rewritten by the check driver with the    *)
 (*                abstract states the generated histories visit) and       *)
-(*                prints the answer of EVERY query for every field, term   *)
-(*                and range of the universe - the brute-force scans below. *)
+(*                prints the accepted answers of EVERY query for every     *)
+(*                field, term and range of the universe.                   *)
 (***************************************************************************)
 EXTENDS Values, KVIndexStates
 
@@ -30,7 +42,11 @@ CONSTANTS FieldSet,   \* field paths of the universe, e.g. {"f", "g.h"}
           Bounds,     \* integers used as range limits (some equal to terms, some strictly between)
           MaxLen,     \* history bound
           EmitAll,    \* TRUE: print every history (exhaustive runs); FALSE: only complete walks
-          Avoid       \* set of action shapes left out of generation (known-finding protocol): "replace"
+          Avoid       \* set of action shapes left out of generation:
+                      \*   "replace"    AddDoc of a live id (known-finding protocol of the batch-write path)
+                      \*   "reregister" AddField of a path some live document carries (no open values arise)
+                      \*   "absent"     RemoveDoc of an id that is not live (a no-op; saves branching in deep cfgs)
+                      \*   "closedhist" (output only) histories that never meet an open value under a registered path
 
 \* number universes selectable from a cfg (cfg files cannot write negative literals)
 Halves7 == {-4, -2, -1, 0, 1, 2, 4}      \* -2, -1, -1/2, 0, 1/2, 1, 2
@@ -43,52 +59,60 @@ Bounds7 == {-5, -3, -1, 0, 1, 3, 5}
 Bounds5 == {-5, -2, 0, 1, 5}
 Bounds4 == {-3, -1, 0, 3}
 
-VARIABLES fields, docs, hist, sts
+VARIABLES fields, docs, openv, hist, sts
 
-vars == <<fields, docs, hist, sts>>
+vars == <<fields, docs, openv, hist, sts>>
 
 Terms == {S(x) : x \in StrTerms} \cup {N(k) : k \in NumTerms}
 
 \* all documents over a set F of paths (partial functions F -> Terms, including the empty document)
 DocVals(F) == UNION {[D -> Terms] : D \in SUBSET F}
 
-Abs == [fields |-> fields, docs |-> docs]
+Abs == [fields |-> fields, docs |-> docs, open |-> openv]
+
+Carry(f) == {d \in DOMAIN docs : f \in DOMAIN docs[d]}
+Firm(f)  == {d \in Carry(f) : <<d, f>> \notin openv}
+Open(f)  == {d \in Carry(f) : <<d, f>> \in openv}
 
 -----------------------------------------------------------------------------
-(* Actions.  What the index holds for a document that was added while one  *)
-(* of its paths was NOT registered is left open by the property, so        *)
-(* generation keeps out of that corner: a document only carries paths that *)
-(* are registered when it is added, and a path is (re-)registered only     *)
-(* while no live document carries it.                                      *)
+(* Actions.  A document only carries paths that are registered when it is  *)
+(* added (what the index holds for a path that was never registered while  *)
+(* the document was added is the same open question; it is reached here    *)
+(* through RemoveField).  A path may be removed and registered again while *)
+(* live documents carry it: their values for it become open.               *)
 
 AddField(f) ==
   /\ f \notin fields
-  /\ \A d \in DOMAIN docs : f \notin DOMAIN docs[d]
+  /\ "reregister" \in Avoid => Carry(f) = {}
   /\ fields' = fields \cup {f}
-  /\ UNCHANGED docs
+  /\ UNCHANGED <<docs, openv>>
 
 RemoveField(f) ==
   /\ f \in fields
   /\ fields' = fields \ {f}
+  /\ openv' = openv \cup {<<d, f>> : d \in Carry(f)}
   /\ UNCHANGED docs
 
-\* insert or replace
+\* insert or replace: all values of the new version are firm
 AddDoc(d, v) ==
   /\ DOMAIN v \subseteq fields
   /\ "replace" \in Avoid => d \notin DOMAIN docs
   /\ docs' = [x \in DOMAIN docs \cup {d} |-> IF x = d THEN v ELSE docs[x]]
+  /\ openv' = {p \in openv : p[1] # d}
   /\ UNCHANGED fields
 
 \* removing an absent document is allowed and changes nothing
 RemoveDoc(d) ==
+  /\ "absent" \in Avoid => d \in DOMAIN docs
   /\ docs' = [x \in DOMAIN docs \ {d} |-> docs[x]]
+  /\ openv' = {p \in openv : p[1] # d}
   /\ UNCHANGED fields
 
 Record(op) ==
   /\ hist' = Append(hist, op)
-  /\ sts'  = Append(sts, [fields |-> fields', docs |-> docs'])
+  /\ sts'  = Append(sts, [fields |-> fields', docs |-> docs', open |-> openv'])
 
-Init == fields = {} /\ docs = <<>> /\ hist = <<>> /\ sts = <<>>
+Init == fields = {} /\ docs = <<>> /\ openv = {} /\ hist = <<>> /\ sts = <<>>
 
 StepAddField    == \E f \in FieldSet : AddField(f)    /\ Record([op |-> "AddField", f |-> f])
 StepRemoveField == \E f \in FieldSet : RemoveField(f) /\ Record([op |-> "RemoveField", f |-> f])
@@ -118,54 +142,61 @@ Spec    == Init /\ [][Next]_vars
 SimSpec == Init /\ [][SimNext]_vars
 
 -----------------------------------------------------------------------------
-(* Queries: brute-force scans of the live documents.                        *)
+(* Queries: brute-force scans of the live documents.  V is the set of       *)
+(* carriers of f the scan looks at: Carry(f) is the plain scan; the         *)
+(* accepted answers are the scans with Firm(f) \subseteq V \subseteq        *)
+(* Carry(f) (operator Views).                                               *)
 
-Carry(f)        == {d \in DOMAIN docs : f \in DOMAIN docs[d]}
-TermMatch(f, t) == {d \in Carry(f) : docs[d][f] = t}
-FieldTerms(f)   == {docs[d][f] : d \in Carry(f)}
-CountOf(f, t)   == Cardinality(TermMatch(f, t))
-TermCounts(f)       == {[t |-> t, c |-> CountOf(f, t)] : t \in FieldTerms(f)}
-StringTermCounts(f) == {r \in TermCounts(f) : r.t[1] = "s"}
-Nums(f)         == {t[2] : t \in {x \in FieldTerms(f) : x[1] = "n"}}
-NumCount(f, k)  == CountOf(f, N(k))
-NumberMin(f)    == CHOOSE k \in Nums(f) : \A j \in Nums(f) : k <= j
-NumberMax(f)    == CHOOSE k \in Nums(f) : \A j \in Nums(f) : k >= j
+Views(f) == {Firm(f) \cup O : O \in SUBSET Open(f)}
+
+TermMatch(f, t, V) == {d \in V : docs[d][f] = t}
+FieldTerms(f, V)   == {docs[d][f] : d \in V}
+CountOf(f, t, V)   == Cardinality(TermMatch(f, t, V))
+TermCounts(f, V)       == {[t |-> t, c |-> CountOf(f, t, V)] : t \in FieldTerms(f, V)}
+StringTermCounts(f, V) == {r \in TermCounts(f, V) : r.t[1] = "s"}
+Nums(f, V)         == {t[2] : t \in {x \in FieldTerms(f, V) : x[1] = "n"}}
+NumCount(f, k, V)  == CountOf(f, N(k), V)
+NumberMin(f, V)    == CHOOSE k \in Nums(f, V) : \A j \in Nums(f, V) : k <= j
+NumberMax(f, V)    == CHOOSE k \in Nums(f, V) : \A j \in Nums(f, V) : k >= j
 
 \* range counts: numbers strictly inside (lo, hi) must be reported with their count, numbers
 \* outside [lo, hi] must not; whether a number equal to a limit is reported is left open by the
 \* property text (if it is reported, its count must be the true one)
-RangeIn(f, lo, hi)   == {[k |-> k, c |-> NumCount(f, k)] : k \in {j \in Nums(f) : lo < j /\ j < hi}}
-RangeEdge(f, lo, hi) == {[k |-> k, c |-> NumCount(f, k)] : k \in {j \in Nums(f) : j = lo \/ j = hi}}
+RangeIn(f, lo, hi, V)   == {[k |-> k, c |-> NumCount(f, k, V)] : k \in {j \in Nums(f, V) : lo < j /\ j < hi}}
+RangeEdge(f, lo, hi, V) == {[k |-> k, c |-> NumCount(f, k, V)] : k \in {j \in Nums(f, V) : j = lo \/ j = hi}}
 
 \* ascending listing, one entry per document carrying a number
-RECURSIVE AscSeq(_, _)
-AscSeq(f, K) == IF K = {} THEN <<>>
-                ELSE LET m == CHOOSE x \in K : \A y \in K : x <= y
-                     IN  [i \in 1..NumCount(f, m) |-> m] \o AscSeq(f, K \ {m})
-Numbers(f) == AscSeq(f, Nums(f))
+RECURSIVE AscSeq(_, _, _)
+AscSeq(f, K, V) == IF K = {} THEN <<>>
+                   ELSE LET m == CHOOSE x \in K : \A y \in K : x <= y
+                        IN  [i \in 1..NumCount(f, m, V) |-> m] \o AscSeq(f, K \ {m}, V)
+Numbers(f, V) == AscSeq(f, Nums(f, V), V)
 
 RangePairs == {p \in Bounds \X Bounds : p[1] < p[2] \/ (p[1] = 0 /\ p[2] = 0)}
 
 \* terms probed by the match query: the universe and whatever the state holds
-ProbeTerms(f) == Terms \cup FieldTerms(f)
+ProbeTerms(f) == Terms \cup FieldTerms(f, Carry(f))
 
-Answers(f) ==
-  [ match   |-> {[t |-> t, ids |-> TermMatch(f, t)] : t \in ProbeTerms(f)},
-    terms   |-> FieldTerms(f),
-    counts  |-> TermCounts(f),
-    scounts |-> StringTermCounts(f),
-    hasnum  |-> Nums(f) # {},
-    min     |-> IF Nums(f) # {} THEN NumberMin(f) ELSE 0,
-    max     |-> IF Nums(f) # {} THEN NumberMax(f) ELSE 0,
-    numbers |-> Numbers(f),
-    ranges  |-> {[lo |-> p[1], hi |-> p[2], in |-> RangeIn(f, p[1], p[2]), edge |-> RangeEdge(f, p[1], p[2])]
+Answers(f, V) ==
+  [ match   |-> {[t |-> t, ids |-> TermMatch(f, t, V)] : t \in ProbeTerms(f)},
+    terms   |-> FieldTerms(f, V),
+    counts  |-> TermCounts(f, V),
+    scounts |-> StringTermCounts(f, V),
+    hasnum  |-> Nums(f, V) # {},
+    min     |-> IF Nums(f, V) # {} THEN NumberMin(f, V) ELSE 0,
+    max     |-> IF Nums(f, V) # {} THEN NumberMax(f, V) ELSE 0,
+    numbers |-> Numbers(f, V),
+    ranges  |-> {[lo |-> p[1], hi |-> p[2], in |-> RangeIn(f, p[1], p[2], V), edge |-> RangeEdge(f, p[1], p[2], V)]
                    : p \in RangePairs} ]
 
+\* what the oracle prints for a registered field: the firm and the open carriers and the scan of every
+\* view (as a set: views that answer every query alike are printed once)
+Accepted(f) == [firm |-> Firm(f), open |-> Open(f), alts |-> {Answers(f, V) : V \in Views(f)}]
+
 -----------------------------------------------------------------------------
-(* Sanity of the specification itself.  TypeOK and Registered are checked  *)
-(* on every generated history; the laws in Sanity tie the query operators  *)
-(* to one another and are checked on every state of the oracle runs of the *)
-(* exhaustive universes.                                                   *)
+(* Sanity of the specification itself.  TypeOK, Registered and OpenIsRemovedSinceAdded are checked *)
+(* on every generated history; the laws in Sanity tie the query operators to one another (for      *)
+(* every view) and are checked on every state of the oracle runs of the exhaustive universes.      *)
 
 RECURSIVE SumC(_)
 SumC(R) == IF R = {} THEN 0 ELSE LET r == CHOOSE x \in R : TRUE IN r.c + SumC(R \ {r})
@@ -176,51 +207,83 @@ TypeOK ==
   /\ fields \subseteq FieldSet
   /\ DOMAIN docs \subseteq DocSet
   /\ \A d \in DOMAIN docs : DOMAIN docs[d] \subseteq FieldSet /\ \A f \in DOMAIN docs[d] : docs[d][f] \in Terms
+  /\ \A p \in openv : p[1] \in DOMAIN docs /\ p[2] \in DOMAIN docs[p[1]]
 
 Sanity ==
   /\ \A f \in FieldSet :
-       /\ SumC(TermCounts(f)) = Cardinality(Carry(f))
-       /\ \A r \in TermCounts(f) : r.c >= 1
-       /\ UNION {TermMatch(f, t) : t \in FieldTerms(f)} = Carry(f)
-       /\ Len(Numbers(f)) = SumC({r \in TermCounts(f) : r.t[1] = "n"})
-       /\ IsAsc(Numbers(f))
-       /\ Nums(f) # {} => /\ NumberMin(f) <= NumberMax(f)
-                          /\ Numbers(f)[1] = NumberMin(f)
-                          /\ Numbers(f)[Len(Numbers(f))] = NumberMax(f)
-       /\ \A p \in RangePairs :
-            /\ \A r \in RangeIn(f, p[1], p[2]) \cup RangeEdge(f, p[1], p[2]) : [t |-> N(r.k), c |-> r.c] \in TermCounts(f)
-            /\ SumC(RangeIn(f, p[1], p[2])) + SumC(RangeEdge(f, p[1], p[2]))
-                 = Cardinality({d \in Carry(f) : docs[d][f][1] = "n" /\ p[1] <= docs[d][f][2] /\ docs[d][f][2] <= p[2]})
+       /\ Views(f) # {} /\ Firm(f) \in Views(f) /\ Carry(f) \in Views(f)
+       /\ Open(f) = {} => Views(f) = {Carry(f)}
+       /\ \A V \in Views(f) :
+            /\ SumC(TermCounts(f, V)) = Cardinality(V)
+            /\ \A r \in TermCounts(f, V) : r.c >= 1
+            /\ UNION {TermMatch(f, t, V) : t \in FieldTerms(f, V)} = V
+            /\ Len(Numbers(f, V)) = SumC({r \in TermCounts(f, V) : r.t[1] = "n"})
+            /\ IsAsc(Numbers(f, V))
+            /\ Nums(f, V) # {} => /\ NumberMin(f, V) <= NumberMax(f, V)
+                                  /\ Numbers(f, V)[1] = NumberMin(f, V)
+                                  /\ Numbers(f, V)[Len(Numbers(f, V))] = NumberMax(f, V)
+            /\ \A p \in RangePairs :
+                 /\ \A r \in RangeIn(f, p[1], p[2], V) \cup RangeEdge(f, p[1], p[2], V) : [t |-> N(r.k), c |-> r.c] \in TermCounts(f, V)
+                 /\ SumC(RangeIn(f, p[1], p[2], V)) + SumC(RangeEdge(f, p[1], p[2], V))
+                      = Cardinality({d \in V : docs[d][f][1] = "n" /\ p[1] <= docs[d][f][2] /\ docs[d][f][2] <= p[2]})
+            \* the interval reading of the accepted answers: every firm value is reported, nothing but firm and
+            \* open values is
+            /\ \A t \in ProbeTerms(f) :
+                 /\ TermMatch(f, t, Firm(f)) \subseteq TermMatch(f, t, V) /\ TermMatch(f, t, V) \subseteq TermMatch(f, t, Carry(f))
+                 /\ CountOf(f, t, Firm(f)) <= CountOf(f, t, V)
+                 /\ CountOf(f, t, V) <= CountOf(f, t, Firm(f)) + Cardinality({d \in Open(f) : docs[d][f] = t})
+            /\ FieldTerms(f, Firm(f)) \subseteq FieldTerms(f, V) /\ FieldTerms(f, V) \subseteq FieldTerms(f, Carry(f))
+            /\ Nums(f, Firm(f)) # {} => /\ NumberMin(f, V) <= NumberMin(f, Firm(f))
+                                        /\ NumberMax(f, V) >= NumberMax(f, Firm(f))
+                                        /\ NumberMin(f, V) >= NumberMin(f, Carry(f))
+                                        /\ NumberMax(f, V) <= NumberMax(f, Carry(f))
 
-\* generation never enters the corner the property leaves open: a document carries only paths
-\* that were registered when it was added (guards of AddField/AddDoc), stated over the history
+\* a document carries only paths that were registered when it was added (guard of AddDoc), and - in the cfgs
+\* that avoid re-registration - a path is registered only while no live document carries it; stated over the history
 Registered ==
   \A i \in 1..Len(hist) :
      LET before == IF i = 1 THEN [fields |-> {}, docs |-> <<>>] ELSE sts[i - 1] IN
        /\ hist[i].op = "AddDoc" => DOMAIN hist[i].v \subseteq before.fields
-       /\ hist[i].op = "AddField" => \A d \in DOMAIN before.docs : hist[i].f \notin DOMAIN before.docs[d]
+       /\ (hist[i].op = "AddField" /\ "reregister" \in Avoid)
+             => \A d \in DOMAIN before.docs : hist[i].f \notin DOMAIN before.docs[d]
+NoOpenIfAvoided == "reregister" \in Avoid => \A f \in fields : Open(f) = {}
+
+\* the variable openv is what its definition says, stated over the history: the value of live document d for path f
+\* is open iff f was removed after d was last added
+LastAdded(d) == CHOOSE i \in 1..Len(hist) : /\ hist[i].op = "AddDoc" /\ hist[i].d = d
+                                            /\ \A j \in (i + 1)..Len(hist) : ~(hist[j].op = "AddDoc" /\ hist[j].d = d)
+OpenIsRemovedSinceAdded ==
+  \A d \in DOMAIN docs : \A f \in DOMAIN docs[d] :
+     (<<d, f>> \in openv) <=> \E j \in (LastAdded(d) + 1)..Len(hist) : hist[j].op = "RemoveField" /\ hist[j].f = f
 
 -----------------------------------------------------------------------------
 (* Output                                                                   *)
 
+\* the cfgs that go deep only to explore the open values ("closedhist" in Avoid) print the histories in which some
+\* state has an open value under a registered path - the others are those of the shallower unrestricted cfgs - and,
+\* since the prefixes of such a history are not all printed, the states after every step with it
+MetOpen == \E i \in 1..Len(sts) : \E p \in sts[i].open : p[2] \in sts[i].fields
 EmitNode ==
-  IF EmitAll THEN (hist # <<>> => Emit("node", [h |-> hist, s |-> Abs]))
+  IF EmitAll THEN
+       IF "closedhist" \in Avoid THEN (MetOpen => Emit("node", [h |-> hist, s |-> Abs, ss |-> sts]))
+       ELSE (hist # <<>> => Emit("node", [h |-> hist, s |-> Abs]))
   ELSE (Len(hist) = MaxLen => Emit("walk", [h |-> hist, ss |-> sts]))
 
 \* oracle use: StateSeq (module KVIndexStates) lists the abstract states to answer for.  The
 \* initial states are NB buckets and each bucket expands its share of StateSeq, so that TLC's
 \* workers evaluate the scans in parallel.
 NB == 64
-OInit == /\ fields = {} /\ docs = <<>> /\ sts = <<>>
+OInit == /\ fields = {} /\ docs = <<>> /\ openv = {} /\ sts = <<>>
          /\ \E b \in 0..(NB - 1) : hist = <<[op |-> "bucket", b |-> b]>>
 ONext == /\ Len(hist) = 1
          /\ \E i \in DOMAIN StateSeq :
               /\ i % NB = hist[1].b
               /\ fields' = StateSeq[i].fields
               /\ docs' = StateSeq[i].docs
+              /\ openv' = StateSeq[i].open
               /\ hist' = Append(hist, [op |-> "state", i |-> i])
               /\ UNCHANGED sts
-EmitAnswers == Len(hist) = 2 => Emit("ans", [s |-> Abs, x |-> [f \in fields |-> Answers(f)]])
+EmitAnswers == Len(hist) = 2 => Emit("ans", [s |-> Abs, x |-> [f \in fields |-> Accepted(f)]])
 
 EmitUniverse == Emit("universe", [fields |-> FieldSet, docs |-> DocSet, terms |-> Terms, ranges |-> RangePairs])
 ASSUME EmitUniverse
